@@ -21,4 +21,5 @@ TRUSTED = ["model: coq/theories/Model/Poly.v, View.v, Hist.v, ChkC04.v (hand-wri
            "float arithmetic of the implementation is exact on the generated dyadic data (guarded by the significant-bit cut)"]
 ASSUMPTIONS = ["IEEE-754 arithmetic is exact on dyadic values that fit the significant-bit guard",
                "Python label equality is modelled by the label table (ints, strings, tuples only; no numeric aliases)"]
-PARTIAL = []
+PARTIAL = ["C04_failed_op_is_noop covers every all-or-nothing call on a well-formed BQM (base object and view handles); for a QM the base-object calls decided before the first write are covered (C04_failed_op_is_noop_direct, C04_qm_update_is_noop_on_conflict); QM flip_variable / fix_variable / add_linear(default_vartype=...) atomicity is only checked by the correspondence",
+           "contract_variables energy theorem and a Coq-level backends_indistinguishable (dict-order vs array-order step) are not proved; both are checked on every generated history by the correspondence"]
